@@ -26,7 +26,9 @@ ASSUMPTIONS = ["exclusion sets are sets of edge ids (vertex / face trees) or fac
 def cases(seed, tier):
     rng = random.Random(seed * 48271 + 10)
     n = 360 if tier == "quick" else 8000
-    return [{"gen": ["polyline", "surface", "surface", "volume"][i % 4], "seed": rng.randrange(2 ** 31)} for i in range(n)]
+    out = [{"gen": ["polyline", "surface", "surface", "volume"][i % 4], "seed": rng.randrange(2 ** 31)} for i in range(n)]
+    out += [{"gen": "hexes", "seed": rng.randrange(2 ** 31)} for i in range(n // 12)]
+    return out
 
 
 def _components(nodes, adj):
@@ -150,11 +152,61 @@ def _bfs_depth_check(ctx, kind, tree, adj, root, reached):
                       node=bad[0], depth=depth[bad[0]], hop=dref.get(bad[0]))
 
 
+HEX_FACES = [(0, 1, 2, 3), (4, 5, 6, 7), (0, 3, 7, 4), (0, 1, 5, 4), (1, 2, 6, 5), (2, 3, 7, 6)]
+
+
+def _hex_case(desc, ctx):
+    """Cell trees / forests on hexahedral blocks (the statement speaks of cells, not of tetrahedra)."""
+    import mouette as M
+    T = M.processing.trees
+    rng = random.Random(desc["seed"])
+    V, C = volumes.hex_block(volumes.random_cubes(rng, rng.randint(2, 9)))
+    ok, m = ctx.call("build", build.volume, V, C, monitor="tree")
+    nC = len(C)
+    ctx.cls("mesh:hexes")
+    faces = [tuple(sorted(int(x) for x in f)) for f in m.faces]
+    fid = {t: i for i, t in enumerate(faces)}
+    face_cells = {}
+    for ci, c in enumerate(C):
+        for hf in HEX_FACES:
+            face_cells.setdefault(tuple(sorted(c[i] for i in hf)), []).append(ci)
+    for rep in range(3):
+        forb = None
+        if rep >= 1:
+            forb = set(rng.sample(range(len(faces)), rng.randint(1, max(1, len(faces) // 3))))
+            if rng.random() < 0.35:
+                forb.add(0)
+        cadj = {c: set() for c in range(nC)}
+        for t, cl in face_cells.items():
+            if len(cl) == 2 and not (forb is not None and fid.get(t) in forb):
+                cadj[cl[0]].add(cl[1])
+                cadj[cl[1]].add(cl[0])
+        root = rng.randrange(nC)
+        ctx.cls("cell_tree_hex:" + ("forbidden" if forb else "plain"))
+        ok, tree = ctx.call("CellSpanningTree", lambda: T.CellSpanningTree(m, root, forb)(), monitor="tree", abort=False)
+        if ok:
+            reached = _check_tree(ctx, "cell_tree", tree, nC, cadj, root)
+            if reached is not None:
+                _bfs_depth_check(ctx, "cell_tree", tree, cadj, root, reached)
+                if forb:
+                    ctx.nontrivial(stable_hash([len(V), C[:40], "hex_ct", root, sorted(forb)]))
+    cadj = {c: set() for c in range(nC)}
+    for t, cl in face_cells.items():
+        if len(cl) == 2:
+            cadj[cl[0]].add(cl[1])
+            cadj[cl[1]].add(cl[0])
+    ok, forest = ctx.call("CellSpanningForest", lambda: T.CellSpanningForest(m)(), monitor="forest", abort=False)
+    if ok:
+        _check_forest(ctx, "cell_forest", forest, nC, cadj)
+
+
 def run_case(desc, ctx):
     import mouette as M
     T = M.processing.trees
     rng = random.Random(desc["seed"])
     g = desc["gen"]
+    if g == "hexes":
+        return _hex_case(desc, ctx)
     F = C = None
     if g == "polyline":
         V, E, cls = graphs.make(rng.randrange(2 ** 31))
